@@ -267,3 +267,12 @@ MUTANTS += [
     ("c05_numpy_context_mask_carried_over", ST, "            subset_indexes = np.full_like(shape_like, 1, dtype=bool)\n", "            subset_indexes = np.full_like(shape_like, 1, dtype=bool) if 'subset_indexes' not in locals() else subset_indexes\n", ["C05"]),
     ("c05_netcdf_lat_lon_swapped", ST, "            varkwargs[\"lat\"] = ds.variables[self.lat_var].to_numpy()", "            varkwargs[\"lat\"] = ds.variables[self.lon_var].to_numpy()", ["C05"]),
 ]
+MUTANTS += [
+    ("c18_call_run_reraises_typeerror", CF, "        except Exception as e:\n            L.error(f'Could not run \"{self.module}.{self.method}: {e}')", "        except ValueError as e:\n            L.error(f'Could not run \"{self.module}.{self.method}: {e}')", ["C18"]),
+    ("c18_failed_call_returns_unknowns", CF, "        except Exception as e:\n            L.error(f'Could not run \"{self.module}.{self.method}: {e}')\n", "        except Exception as e:\n            L.error(f'Could not run \"{self.module}.{self.method}: {e}')\n            results.append(CallResult(package=self.module, test=self.method, function=self.func, results=np.full(np.size(testkwargs.get(\"inp\", [])), 2, dtype=\"uint8\")))\n", ["C18"]),
+    ("c18_pandas_absent_stream_breaks", ST, "                    L.warning(\n                        f\"{call.stream_id} not a column in the input dataframe, skipping\",\n                    )\n                    continue", "                    L.warning(\n                        f\"{call.stream_id} not a column in the input dataframe, skipping\",\n                    )\n                    break", ["C18"]),
+    ("c18_numpy_absent_stream_breaks", ST, "                        L.warning(\n                            f\"{call.stream_id} not in input dict, skipping\",\n                        )\n                        continue", "                        L.warning(\n                            f\"{call.stream_id} not in input dict, skipping\",\n                        )\n                        break", ["C18"]),
+    ("c18_xarray_absent_stream_breaks", ST, "                        f\"{call.stream_id} is not a variable in the xarray dataset, skipping\",\n                    )\n                    continue", "                        f\"{call.stream_id} is not a variable in the xarray dataset, skipping\",\n                    )\n                    break", ["C18"]),
+    ("c18_collect_empty_result_clears", RS, "        # CallResults\n        for tr in r.results:", "        # CallResults\n        if not r.results:\n            collected.clear()\n        for tr in r.results:", ["C18"]),
+    ("c18_readonly_alias_regress", RS, "                    setattr(collected[cr.hash_key], axis, np.array(values))", "                    setattr(collected[cr.hash_key], axis, values)", ["C18", "C06"]),
+]
